@@ -6,6 +6,7 @@ import CanvasProofs.Lemmas.C01Avl
 import CanvasProofs.Lemmas.C01Heap
 import CanvasProofs.Lemmas.C01Cmp
 import CanvasProofs.Lemmas.C01Merge
+import CanvasProofs.Lemmas.C01Split
 
 /-! # C01 — Boolean path operations compute the set algebra of the filled regions (partial)
 
@@ -357,5 +358,27 @@ theorem merge_receiver_windings (s : Ent) (below : List Ent) (ht : (merge s belo
   merge_fields_expected s below ht hp
 
 end Merge
+
+namespace Split
+open Canvas.C01Split Canvas.Wn
+
+/-- `addIntersections` raises its flag (on which `bentleyOttmann` re-sorts the events of the square)
+exactly when `splitAtIntersections` pushed new events onto the queue: whenever EITHER segment was
+split -/
+theorem resort_flag_iff_events_pushed (zs : List IPt) (a0 a1 b0 b1 : IPt) :
+    addRet zs a0 a1 b0 b1 = true ↔ 0 < pushed zs a0 a1 b0 b1 :=
+  addRet_iff_pushed zs a0 a1 b0 b1
+
+/-- a one-sided split (T-junction, or the second of two coincident segments cut by a third) is
+reported -/
+theorem resort_flag_of_one_sided_split (zs : List IPt) (a0 a1 b0 b1 : IPt)
+    (h : 0 < splits zs.reverse a0 a1 ∨ 0 < splits zs.reverse b0 b1) : addRet zs a0 a1 b0 b1 = true :=
+  addRet_of_one_sided zs a0 a1 b0 b1 h
+
+/-- events come in pairs (the two end points created by a split) -/
+theorem pushed_events_even (zs : List IPt) (a0 a1 b0 b1 : IPt) : pushed zs a0 a1 b0 b1 % 2 = 0 :=
+  pushed_even zs a0 a1 b0 b1
+
+end Split
 
 end C01
